@@ -13,7 +13,8 @@ from ..core import fmt_list, parse_ints, frac, err_kind
 
 ID = "C10"
 THREADS = True       # part of the cases run concurrently in threads of one interpreter (the schedule dimension)
-MODULES = ["TWV.Properties.C10"]
+MODULES = ["TWV.Tie.Search", "TWV.Properties.C10"]
+TRANSLATORS = ["t5_search"]
 RULE = ("exhaustive lattice: every strictly increasing array of <=4 (thorough <=5) elements over {-2..2} ({-2..3}) with "
         "every sorted query multiset of <=3 (<=4) values on the half-integer lattice, all five strategy/fill variants; "
         "plus random float arrays with queries equal to, +-1ulp around, between and beyond the elements, unsorted "
